@@ -196,8 +196,26 @@ func TestC09(t *testing.T) {
 				descr = append(descr, fmt.Sprintf("[evict L1 %v]", names))
 			}
 			kind := rapid.SampledFrom([]wire.Kind{wire.Set, wire.Set, wire.Add, wire.Replace, wire.Touch, wire.Touch, wire.Gat, wire.Gat, wire.Append, wire.Prepend, wire.Get, wire.Get, wire.Delete}).Draw(t, "kind")
+			// L2 loses a key (eviction, restart) while L1 may still hold it with its
+			// old expiry; the authoritative tier no longer has it, so the model drops
+			// it too.  Until both tiers agree again replies depend on which tier a
+			// command consults first, so the very next command is a main-port add or
+			// set of that key: whatever it is acknowledged with is what every tier
+			// may keep afterwards (seed C09o: the L1 left-over survives the add).
+			lostL2 := ""
+			if cfg.Shape != "l1only" && rapid.IntRange(0, 5).Draw(t, "loseL2") == 0 {
+				lostL2 = rapid.SampledFrom(keys).Draw(t, "loseL2Key")
+				hadL1 := model.Live(lostL2, now) != nil
+				st.L2.Evict(lostL2)
+				model.Apply(wire.Cmd{Kind: wire.Delete, Key: lostL2}, now)
+				kind = rapid.SampledFrom([]wire.Kind{wire.Add, wire.Add, wire.Set}).Draw(t, "loseL2Kind")
+				descr = append(descr, fmt.Sprintf("[lose L2 %q]", lostL2))
+				if hadL1 {
+					nt = true // L2 lost a key the model held live: an add/set must leave no tier with the old expiry
+				}
+			}
 			c := wire.Cmd{Kind: kind}
-			if cfg.Shape == "l1l2+batch" {
+			if cfg.Shape == "l1l2+batch" && lostL2 == "" {
 				c.Port = rapid.IntRange(0, 1).Draw(t, "port")
 			}
 			if kind == wire.Get {
@@ -206,6 +224,9 @@ func TestC09(t *testing.T) {
 				}
 			} else {
 				c.Key = rapid.SampledFrom(keys).Draw(t, "key")
+				if lostL2 != "" {
+					c.Key = lostL2
+				}
 			}
 			class := -1
 			switch kind {
